@@ -185,6 +185,7 @@ Inductive presult :=
 | POk (st : state) (rest : list token)
 | PArgErr (e : err)          (* argParse error *)
 | PErr                       (* Value.Set error, file / base64 / JSON error *)
+| PAlready                   (* config: Parse() must be called once *)
 | PPanic.
 
 (** flg.ArgValue after argParse, flg.EnvValue after envParse *)
@@ -269,6 +270,42 @@ Definition run (w : world) (fields : list flag) (args : list token) : rresult :=
   | NErr => RNewErr
   | NOk fs st0 => RParse (parse w fs st0 args)
   end.
+
+(** * The FlagSet as an object: histories of Parse calls on ONE FlagSet.
+    [ob_parsed] is f.parsed, set at the entry of the first Parse whatever its outcome.  [ob_st]: the
+    struct's fields; after a FAILED Parse they are partially assigned — that content is not modelled
+    ([None]) — but no later call changes it. *)
+Record fsobj := { ob_parsed : bool; ob_fs : flagset; ob_st : option state }.
+
+Definition new_object (o : oracle) (fields : list flag) : option fsobj :=
+  match new_flag_set o fields with
+  | NOk fs st0 => Some {| ob_parsed := false; ob_fs := fs; ob_st := Some st0 |}
+  | NErr => None
+  end.
+
+(** one call f.Parse(args) in world [w] *)
+Definition parse_call (w : world) (ob : fsobj) (args : list token) : fsobj * presult :=
+  if ob_parsed ob then (ob, PAlready)          (* if f.parsed { return errors.New("… must be called once") } *)
+  else                                          (* f.parsed = true *)
+    match ob_st ob with
+    | None => ({| ob_parsed := true; ob_fs := ob_fs ob; ob_st := None |}, PErr)
+    | Some st0 =>
+        match parse w (ob_fs ob) st0 args with
+        | POk s rest => ({| ob_parsed := true; ob_fs := ob_fs ob; ob_st := Some s |}, POk s rest)
+        | r => ({| ob_parsed := true; ob_fs := ob_fs ob; ob_st := None |}, r)
+        end
+    end.
+
+(** successive calls, each in its own world (the environment and the files may change in between) *)
+Fixpoint history (ob : fsobj) (calls : list (world * list token)) : list presult :=
+  match calls with
+  | [] => []
+  | (w, a) :: r => let (ob', res) := parse_call w ob a in res :: history ob' r
+  end.
+
+(** FromCommandLine(&cfg): NewFlagSet + Parse(os.Args[1:]) (printing the usage and exiting when -help is set is not modelled) *)
+Definition from_command_line (w : world) (fields : list flag) (os_args : list token) : rresult :=
+  run w fields (tl os_args).
 
 (** NewFlagSet(&cfg) + Parse(args) for a struct type given by its exported fields *)
 Definition run_struct (w : world) (fields : list sfield) (args : list token) : rresult := run w (flatten fields) args.
